@@ -53,6 +53,12 @@ def scenario(big: bool = False) -> Any:
             d.update({"A": A, "N": None, "stop": None, "ends": False, "via_api": True, "stream_fault": [len(first)] * min(A, 3)})
         d["horizon"] = cm.horizon_for(d)
         d["drain"] = 0.0
+        if d.pop("late_labels"):
+            # some messages carry a label that was added after the client computed the label types (pre_send middleware,
+            # foreign producer): labels_types is present but does not cover it - still an ordinary, well-formed message
+            for j, m in enumerate(d["msgs"]):
+                if j % 2 == 0 and m["kind"] not in ("bad", "unknown"):
+                    m["late_labels"] = {"trace": f"t{j}"}
         ph = d.pop("pre_hook")
         if ph is not None:
             d["mws"] = [{"pre_execute": {"async": ph, "fail_on": []}}]
@@ -72,7 +78,8 @@ def scenario(big: bool = False) -> Any:
         # an observing pre_execute middleware written as a sync function, an async one, or a plain function returning a coroutine /
         # a Future / another awaitable (all allowed by the hook's signature): messages still run exactly once
         "pre_hook": st.sampled_from([None, None, None, False, True, "deferred", "future", "awaitable"]),
-        "api_restart": st.sampled_from([False] * 7 + [True]),      # instant at which the task `dyntask` gets registered on the running worker
+        "api_restart": st.sampled_from([False] * 7 + [True]),
+        "late_labels": st.sampled_from([False, False, True]),      # instant at which the task `dyntask` gets registered on the running worker
     }).map(fin)
 
 
